@@ -8,6 +8,7 @@ import logging
 from typing import Any
 
 import aiofiles
+from marshmallow import ValidationError
 
 from .exceptions import PersistenceReadError, PersistenceWriteError
 from .model.node import Node, NodeSchema
@@ -39,13 +40,17 @@ class Persistence:
             LOGGER.debug("Persistence file missing, creating file: %s", path)
             await self.save()
             return
-        except (OSError, ValueError) as err:
+        except (OSError, ValueError, RecursionError) as err:
             raise PersistenceReadError(err) from err
 
         node_schema = NodeSchema()
-        for node_data in data.values():
-            node: Node = node_schema.load(node_data)
-            self.nodes[node.node_id] = node
+        try:
+            for node_data in data.values():
+                node: Node = node_schema.load(node_data)
+                self.nodes[node.node_id] = node
+        except (AttributeError, TypeError, ValidationError) as err:
+            # The file holds valid JSON that doesn't have the expected shape.
+            raise PersistenceReadError(err) from err
 
     async def save(self) -> None:
         """Save data."""
